@@ -28,6 +28,9 @@ type caseSpec struct {
 	Kind  string   `json:"kind"`
 	Conf  e2e.Conf `json:"conf"`
 	Items []int    `json:"items"` // grid ids
+	// Proxy: the crawl goes through a SOCKS5 proxy (--proxy): the WARC-writing client is then the proxied
+	// one, which is built separately and must carry the same discard policy
+	Proxy bool `json:"proxy,omitempty"`
 }
 
 type confDim struct {
@@ -120,6 +123,7 @@ func cases(tier string, grid []item) []caseSpec {
 				}
 			}
 			out = append(out, caseSpec{Name: fmt.Sprintf("policy%v grid %s", list, d.name()), Kind: "grid", Conf: conf, Items: ids})
+			out = append(out, caseSpec{Name: fmt.Sprintf("policy%v grid %s through a proxy", list, d.name()), Kind: "grid", Conf: conf, Items: ids, Proxy: true})
 			for _, id := range ids {
 				it := grid[id]
 				if tier != "thorough" && (it.Size != "2049" && it.Status != "204" || it.Status == "500" || it.Status == "403cf" || it.Status == "404") {
@@ -213,6 +217,14 @@ func runCase(cs caseSpec, grid []item, keep bool) (v verdict) {
 		}
 	}()
 	conf := cs.Conf
+	if cs.Proxy {
+		sp, err := e2e.NewSocks5("127.0.0.3")
+		if err != nil {
+			hkit.EngineError("socks5: %v", err)
+		}
+		defer sp.Close()
+		conf.Proxy = sp.URL()
+	}
 	conf.InputSeeds = []string{o.URL(seed)}
 	spec := &e2e.ChildSpec{Dir: dir, Conf: conf, Mode: "drain", ExpectFinished: 1, DeadlineS: 55,
 		Triggers: []e2e.Trigger{{Name: "finish", Match: e2e.PointFinish, N: 0, Do: []string{"sizes:sizes.jsonl"}}}}
